@@ -336,5 +336,9 @@ pub fn run(tier: &str, seed: u64, only: Option<&str>) -> Run {
             }
         }
     }
+    // performance end to end from file bytes / decoded objects (PIPEP lines, Model/PipelinePerf.lean)
+    if only.is_none() || only.is_some_and(|o| o.starts_with("pipep-")) {
+        crate::pipe_perf::run(&mut run, tier, seed, only);
+    }
     run
 }
